@@ -106,7 +106,8 @@ class VDT(dt.datetime):
 
 def setup(opts):
     run.datetime = VDT
-    patchall.replace_everywhere(dt.datetime, VDT)   # wherever else the package reads the clock
+    patchall.patch_attr(dt, "datetime", VDT)   # wherever else the package reads the clock: the class under any name,
+    #                                        or the datetime module itself under any name (import datetime as dt)
 
 
 def pep495_zone(kind, zone):
